@@ -141,7 +141,7 @@ class AbstractAxis(AbstractHasMetadata):
         values = self.values[()]
         tol=tol or self._tol
 
-        if tol is not None and not self.is_numeric():
+        if tol is not None and not is_numeric(values):
             tol = None # ignore tol parameter for non-numeric axes (an error will be raised if element is not found)
 
         if type(val) is slice:
